@@ -563,36 +563,43 @@ def _check_files(plan, tag, out, V, neigh, sp, valid, ns, nap, od, res, chunk, n
             last_by_task[t_] = dg
         if len(last_by_task) > 1 and len(set(last_by_task.values())) > 1:
             raise Violation("C13.W4", f"{sigbase}:conflicting-stores", f"memmap row {r_} was stored by chunk tasks {sorted(last_by_task, key=str)} with different contents (unordered tasks: the final content depends on the schedule) {ctx}")
-    # W5: the loader returns what was saved
-    wl = wfx.WaveformsLoader(od)
-    w_all = wl.load_waveforms(return_info=False)
-    if not np.array_equal(w_all, traces, equal_nan=True):
-        raise Violation("C13.W5", f"{sigbase}:loader-all", f"load_waveforms() differs from the saved traces {ctx}")
-    if len(present):
-        lr = rng_of(plan["seed"] ^ 0xABC)
-        labs = sorted(lr.sample(list(present.tolist()), lr.randrange(1, len(present) + 1)))
-        idxs = sorted(lr.sample(range(plan["max_wf"]), lr.randrange(1, plan["max_wf"] + 1)))
-        w, info, chans = wl.load_waveforms(labels=np.array(labs), indices=np.array(idxs))
-        exp_rows = []
-        for u in labs:
-            rows = np.flatnonzero(clusters == u)
-            exp_rows += [rows[i] for i in idxs if i < len(rows)]
-        exp_rows = np.array(sorted(exp_rows), dtype=int)
-        if w.shape[0] != len(exp_rows) or not np.array_equal(w, traces[exp_rows], equal_nan=True) or \
-                not np.array_equal(chans, channels[exp_rows]) or not np.array_equal(info["sample"].to_numpy().astype(np.int64), samples[exp_rows]):
-            raise Violation("C13.W5", f"{sigbase}:loader-subset", f"load_waveforms(labels={labs}, indices={idxs}) returned {w.shape[0]} rows, expected rows {exp_rows.tolist()[:12]} {ctx}")
-        # argument forms: labels as an unsorted python list, indices as a scalar
-        labs2 = list(reversed(labs))
-        i0 = idxs[0]
-        w2, info2, ch2 = wl.load_waveforms(labels=labs2, indices=i0)
-        exp2 = np.array(sorted(np.flatnonzero(clusters == u)[i0] for u in labs if i0 < int(np.sum(clusters == u))), dtype=int)
-        if w2.shape[0] != len(exp2) or not np.array_equal(w2, traces[exp2], equal_nan=True) or not np.array_equal(ch2, channels[exp2]):
-            raise Violation("C13.W5", f"{sigbase}:loader-args", f"load_waveforms(labels={labs2} (list), indices={i0} (scalar)) returned {w2.shape[0]} rows, expected rows {exp2.tolist()[:12]} {ctx}")
-        w3 = wl.load_waveforms(labels=np.array(labs), return_info=False)
-        exp3 = np.flatnonzero(np.isin(clusters, labs))
-        if not np.array_equal(w3, traces[exp3], equal_nan=True):
-            raise Violation("C13.W5", f"{sigbase}:loader-labels-only", f"load_waveforms(labels={labs}) does not return exactly those units' rows {ctx}")
-    del wl
+    # W5: the loader returns what was saved (and does not raise for units / indices that exist in the request)
+    try:
+        wl = wfx.WaveformsLoader(od)
+        w_all = wl.load_waveforms(return_info=False)
+        if not np.array_equal(w_all, traces, equal_nan=True):
+            raise Violation("C13.W5", f"{sigbase}:loader-all", f"load_waveforms() differs from the saved traces {ctx}")
+        if len(present):
+            lr = rng_of(plan["seed"] ^ 0xABC)
+            labs = sorted(lr.sample(list(present.tolist()), lr.randrange(1, len(present) + 1)))
+            idxs = sorted(lr.sample(range(plan["max_wf"]), lr.randrange(1, plan["max_wf"] + 1)))
+            w, info, chans = wl.load_waveforms(labels=np.array(labs), indices=np.array(idxs))
+            exp_rows = []
+            for u in labs:
+                rows = np.flatnonzero(clusters == u)
+                exp_rows += [rows[i] for i in idxs if i < len(rows)]
+            exp_rows = np.array(sorted(exp_rows), dtype=int)
+            if w.shape[0] != len(exp_rows) or not np.array_equal(w, traces[exp_rows], equal_nan=True) or \
+                    not np.array_equal(chans, channels[exp_rows]) or not np.array_equal(info["sample"].to_numpy().astype(np.int64), samples[exp_rows]):
+                raise Violation("C13.W5", f"{sigbase}:loader-subset", f"load_waveforms(labels={labs}, indices={idxs}) returned {w.shape[0]} rows, expected rows {exp_rows.tolist()[:12]} {ctx}")
+            # argument forms: labels as an unsorted python list, indices as a scalar
+            labs2 = list(reversed(labs))
+            i0 = idxs[0]
+            w2, info2, ch2 = wl.load_waveforms(labels=labs2, indices=i0)
+            exp2 = np.array(sorted(np.flatnonzero(clusters == u)[i0] for u in labs if i0 < int(np.sum(clusters == u))), dtype=int)
+            if w2.shape[0] != len(exp2) or not np.array_equal(w2, traces[exp2], equal_nan=True) or not np.array_equal(ch2, channels[exp2]):
+                raise Violation("C13.W5", f"{sigbase}:loader-args", f"load_waveforms(labels={labs2} (list), indices={i0} (scalar)) returned {w2.shape[0]} rows, expected rows {exp2.tolist()[:12]} {ctx}")
+            w3 = wl.load_waveforms(labels=np.array(labs), return_info=False)
+            exp3 = np.flatnonzero(np.isin(clusters, labs))
+            if not np.array_equal(w3, traces[exp3], equal_nan=True):
+                raise Violation("C13.W5", f"{sigbase}:loader-labels-only", f"load_waveforms(labels={labs}) does not return exactly those units' rows {ctx}")
+    except Violation:
+        raise
+    except Exception as e:
+        import traceback
+        where = [ln.strip() for ln in traceback.format_exc().splitlines() if "waveform_extraction.py" in ln][-1:] or [""]
+        raise Violation("C13.W5", f"{sigbase}:loader-raises:{type(e).__name__}", f"WaveformsLoader raised {type(e).__name__}: {e} {where[0]} {ctx}")
+    wl = None
     # reach
     if tag == "sim" and n_jobs > 1:
         nonempty = len(res["mm"])
